@@ -260,6 +260,9 @@ package store
 
 // ---- flattening a tree into entries
 
+// re-bracketing a three-part path: the form Sprintf builds for a sub-directory against the form jn needs
+//@ lemma [jn-step] {C05,C07} forall r string, a string, q string {(r + "/" + a) + "/" + q} :: (r + "/" + a) + "/" + q == r + "/" + (a + "/" + q)
+//@ lemma [jn-step-rev] {C05,C07} forall r string, a string, q string {r + "/" + (a + "/" + q)} :: r + "/" + (a + "/" + q) == (r + "/" + a) + "/" + q
 //@ pred jn(r, q) := ite(r == "", q, r + "/" + q)
 //@ pred isLeafPath(nodes, upto, q, n) := exists k int :: 0 <= k && k < upto && k < len(nodes) && nodes[k].Name == splitHead(q, "/") && ((!contains(q, "/") && n == nodes[k]) || (contains(q, "/") && len(nodes[k].Children) > 0 && object.denotes(nodes[k].Children, splitTail(q, "/"), n)))
 
